@@ -136,6 +136,9 @@ func (m *Machine) fakeImplements(itf Iface, it *types.Interface) bool {
 	if _, ok := itf.V.(RType); ok {
 		return true
 	}
+	if o, ok := itf.V.(*Opaque); ok && o.Kind == "diam.Conn" {
+		return true
+	}
 	return false
 }
 
@@ -311,6 +314,123 @@ func registerVX() {
 	intrinsics[p+"Implies"] = func(m *Machine, fr *frame, args []Value) Value {
 		return m.C.Implies(args[0].(*smt.Term), args[1].(*smt.Term))
 	}
+	intrinsics[p+"Register"] = func(m *Machine, fr *frame, args []Value) Value {
+		m.env["reg:"+mustStr(args[0])] = args[1]
+		return nil
+	}
+	intrinsics[p+"Config"] = func(m *Machine, fr *frame, args []Value) Value {
+		t := args[1].(*smt.Term)
+		m.env["cfg:"+mustStr(args[0])] = t.IsTrue()
+		return nil
+	}
+	intrinsics[p+"DBPut"] = func(m *Machine, fr *frame, args []Value) Value {
+		rg := m.C.Zext(args[1].(*smt.Term), 64)
+		field := mustStr(args[2])
+		for _, r := range m.dbRows() {
+			if m.Branch(m.C.And(m.strEq(fr, r.ueId, args[0]), m.C.Eq(r.rg, rg))) {
+				if _, ok := r.fields[field]; !ok {
+					r.order = append(r.order, field)
+				}
+				r.fields[field] = args[3]
+				return nil
+			}
+		}
+		r := &dbRow{ueId: args[0], rg: rg, fields: map[string]Value{field: args[3]}, order: []string{field}}
+		m.env["mongo"] = append(m.dbRows(), r)
+		return nil
+	}
+	intrinsics[p+"DBGet"] = func(m *Machine, fr *frame, args []Value) Value {
+		rg := m.C.Zext(args[1].(*smt.Term), 64)
+		field := mustStr(args[2])
+		for _, r := range m.dbRows() {
+			if m.Branch(m.C.And(m.strEq(fr, r.ueId, args[0]), m.C.Eq(r.rg, rg))) {
+				if v, ok := r.fields[field]; ok {
+					return Tuple{v, m.C.True}
+				}
+				return Tuple{"", m.C.False}
+			}
+		}
+		return Tuple{"", m.C.False}
+	}
+	intrinsics[p+"DBWrites"] = func(m *Machine, fr *frame, args []Value) Value { return m.i64(int64(asInt(m.env["dbWrites"]))) }
+	intrinsics[p+"HTTPStatus"] = func(m *Machine, fr *frame, args []Value) Value {
+		g := m.gin(ptrArg(args[0]))
+		if g.status == nil {
+			return m.i64(-1)
+		}
+		return g.status
+	}
+	intrinsics[p+"HTTPWrites"] = func(m *Machine, fr *frame, args []Value) Value {
+		return m.i64(int64(m.gin(ptrArg(args[0])).writes))
+	}
+	intrinsics[p+"HTTPHeader"] = func(m *Machine, fr *frame, args []Value) Value {
+		if v, ok := m.gin(ptrArg(args[0])).headers[mustStr(args[1])]; ok {
+			return v
+		}
+		return ""
+	}
+	intrinsics[p+"HTTPBody"] = func(m *Machine, fr *frame, args []Value) Value {
+		b := m.gin(ptrArg(args[0])).body
+		if b == nil {
+			return Iface{}
+		}
+		return b
+	}
+	intrinsics[p+"HTTPSetParam"] = func(m *Machine, fr *frame, args []Value) Value {
+		m.gin(ptrArg(args[0])).params[mustStr(args[1])] = args[2]
+		return nil
+	}
+	intrinsics[p+"Notifications"] = func(m *Machine, fr *frame, args []Value) Value {
+		n, _ := m.env["notifications"].([]Value)
+		return m.i64(int64(len(n)))
+	}
+	intrinsics[p+"NotificationURI"] = func(m *Machine, fr *frame, args []Value) Value {
+		n, _ := m.env["notifications"].([]Value)
+		return n[mustInt(args[0])].(Tuple)[0]
+	}
+	intrinsics[p+"NotificationBody"] = func(m *Machine, fr *frame, args []Value) Value {
+		n, _ := m.env["notifications"].([]Value)
+		// the request object; harness reads it through its own accessors
+		v := n[mustInt(args[0])].(Tuple)[1]
+		if itf, ok := v.(Iface); ok {
+			return itf
+		}
+		return Iface{T: types.NewPointer(m.lookupNamed("github.com/free5gc/openapi/chf/ConvergedCharging", "PostChargingNotificationRequest")), V: v}
+	}
+	intrinsics[p+"ServerPanicked"] = func(m *Machine, fr *frame, args []Value) Value {
+		_, ok := m.env["serverPanic"].(*GoPanic)
+		return m.C.Bool(ok)
+	}
+	intrinsics[p+"AnswersWritten"] = func(m *Machine, fr *frame, args []Value) Value {
+		return m.i64(int64(asInt(m.env["answersWritten"])))
+	}
+	intrinsics[p+"ConnsOpened"] = func(m *Machine, fr *frame, args []Value) Value {
+		return m.i64(int64(len(m.conns())))
+	}
+	intrinsics[p+"ConnsLeaked"] = func(m *Machine, fr *frame, args []Value) Value {
+		n := 0
+		for _, c := range m.conns() {
+			if !c.closed && !c.kept {
+				n++
+			}
+		}
+		return m.i64(int64(n))
+	}
+	intrinsics[p+"DiamConn"] = func(m *Machine, fr *frame, args []Value) Value {
+		return Iface{T: diamConnType, V: &Opaque{Kind: "diam.Conn", Data: &diamConn{id: -3}}}
+	}
+	intrinsics[p+"LastAnswer"] = func(m *Machine, fr *frame, args []Value) Value {
+		msg, ok := m.env["lastAnswer"].(*diamMsg)
+		if !ok || msg.body == nil {
+			return m.C.False
+		}
+		dst := args[0].(Iface)
+		if !types.Identical(deref(dst.T), msg.bodyT) {
+			m.unsupported("vx.LastAnswer into %v of a %v", dst.T, msg.bodyT)
+		}
+		store(dst.V.(*Value), deepCopy(msg.body, map[interface{}]Value{}))
+		return m.C.True
+	}
 	intrinsics[p+"Symbolic"] = func(m *Machine, fr *frame, args []Value) Value { return m.C.True }
 	intrinsics[p+"IsConcreteRun"] = func(m *Machine, fr *frame, args []Value) Value { return m.C.False }
 	intrinsics[p+"Time"] = vxTime
@@ -431,6 +551,9 @@ func registerStd() {
 		sep, ok := strArg(args[1])
 		if !ok {
 			m.unsupported("strings.Index with symbolic needle")
+		}
+		if ds, isDec := args[0].(*Str); isDec && ds.Dec != nil && sep != "" && !decAlphabet(sep) {
+			return m.i64(-1) // decimal text contains only digits and '-'
 		}
 		if s, ok := strArg(args[0]); ok {
 			return m.i64(int64(strings.Index(s, sep)))
@@ -756,6 +879,15 @@ func registerStd() {
 	// misc
 	I["runtime.Gosched"] = noop
 	I["runtime.KeepAlive"] = noop
+}
+
+func decAlphabet(s string) bool {
+	for i := 0; i < len(s); i++ {
+		if (s[i] < '0' || s[i] > '9') && s[i] != '-' {
+			return false
+		}
+	}
+	return true
 }
 
 func (m *Machine) assumeASCII(fr *frame, t *smt.Term) {
